@@ -1089,7 +1089,10 @@ impl Analyzable for AliasDef {
     }
 
     fn is_resolved(&self) -> bool {
-        self.alias_type.is_resolved() && self.is_alias_chain_resolved()
+        // only an alias of a custom type has a chain to follow down to a type definition
+        let needs_chain = matches!(self.alias_type, Type::Custom(_));
+
+        self.alias_type.is_resolved() && (!needs_chain || self.is_alias_chain_resolved())
     }
 }
 
@@ -1353,7 +1356,11 @@ fn resolve_types_and_aliases(
     let mut aliases_report = AnalyzeReport::default();
 
     let mut pass_count = 0usize;
-    let max_passes = 100usize; // prevent infinite loops
+
+    // each pass resolves at least one more link of a chain of definitions, so there is
+    // nothing left to gain after as many passes as there are definitions (every pass
+    // re-embeds the previous one, which makes useless passes very expensive)
+    let max_passes = (types.len() + aliases.len() + 1).min(100);
 
     while pass_count < max_passes && !(types.is_resolved() && aliases.is_resolved()) {
         pass_count += 1;
